@@ -695,6 +695,10 @@ class Engine:
                         v = Struct(norm_ty(ty) if ty_kind(norm_ty(ty)) == 'adt' else '()', {}, None)
                     cell.set(self, v)
                 t = type(v)
+                if isinstance(v, Struct) and v.meta is not None and v.meta[0] == 'union':
+                    cell = UnionFieldCell(v, norm_ty(p[2]))
+                    cur_ty = p[2]
+                    continue
                 if isinstance(v, Struct):
                     c = v.f.get(p[1])
                     if c is None:
@@ -1066,6 +1070,14 @@ class Engine:
         d = {}
         for fname, o in fields:
             d[sd.index_of(fname)] = Cell(self.operand(fr, o))
+        if getattr(sd, 'is_union', False):
+            (k, c), = d.items()
+            st_ = Struct(ty, {0: c}, None)
+            x = c.get(self)
+            # the printed field name is unreliable for unions: the stored value's sort tells which view is active
+            have = 'f64' if is_fp(x) else ('u64' if isinstance(x, z3.BitVecRef) and x.size() == 64 else norm_ty(sd.fields[k][1]))
+            st_.meta = ('union', have)
+            return st_
         return Struct(ty, d, None)
     def agg_call(self, fr, path, ops, dest_ty):
         ty = norm_ty(path)
@@ -1323,7 +1335,7 @@ class Engine:
                            z3.If(z3.fpGEQ(v, fhi1), bv(hi, w), conv)))
     def transmute(self, v, to, from_ty, fr):
         if to in INT_BITS and is_fp(v):
-            return z3.fpToIEEEBV(v)
+            return fp_to_bits(v)
         if to == 'f64' and isinstance(v, z3.BitVecRef):
             return z3.fpBVToFP(v, F64)
         if to in INT_BITS and isinstance(v, z3.BitVecRef) and v.size() == INT_BITS[to]:
@@ -1526,6 +1538,33 @@ class Engine:
                 fn(self, self.place_cell(fr, place), ty, fr)
                 return
 
+class UnionFieldCell:
+    """view of a union's storage as one of its fields (same-size scalar reinterpretation)"""
+    __slots__ = ('u', 'ty')
+
+    def __init__(self, u, ty):
+        self.u = u
+        self.ty = ty
+
+    def get(self, eng):
+        x = self.u.f[0].get(eng)
+        have = self.u.meta[1]
+        if have == self.ty:
+            return x
+        if self.ty == 'f64' and isinstance(x, z3.BitVecRef) and x.size() == 64:
+            return z3.fpBVToFP(x, F64)
+        if self.ty in ('u64', 'i64') and is_fp(x):
+            return fp_to_bits(x)
+        raise Unsupported(f'union reinterpretation {have} -> {self.ty}')
+
+    def set(self, eng, v):
+        self.u.f[0].set(eng, v)
+        self.u.meta = ('union', self.ty)
+
+    def sub(self, eng, proj, variant=None):
+        return None
+
+
 class SliceCell:
     """pseudo cell produced by dereferencing a slice reference: holds the slice itself"""
     __slots__ = ('s',)
@@ -1539,6 +1578,22 @@ class SliceCell:
         return None
 
 # --------------------------------------------------------------------------------------------
+def fp_to_bits(x):
+    """bit pattern of a float; a float that was itself made from bits keeps them exactly (NaN payloads included)"""
+    try:
+        if z3.is_app(x) and x.decl().kind() == z3.Z3_OP_FPA_TO_FP and x.num_args() == 1 and z3.is_bv(x.arg(0)) and x.arg(0).size() == 64:
+            return x.arg(0)
+    except Exception:
+        pass
+    # the bit pattern of a computed NaN is one of the two canonical quiet NaNs (what the hardware produces from
+    # non-signalling inputs); z3 leaves it unspecified
+    if z3.is_fp_value(x) if hasattr(z3, 'is_fp_value') else False:
+        return z3.fpToIEEEBV(x)
+    sgn = z3.Bool('nan_sign!' + str(abs(hash(x.sexpr())) % (1 << 40)))
+    canon = z3.If(sgn, z3.BitVecVal(0xfff8000000000000, 64), z3.BitVecVal(0x7ff8000000000000, 64))
+    return z3.If(z3.fpIsNaN(x), canon, z3.fpToIEEEBV(x))
+
+
 def bvadd(a, b):
     ca, cb = conc(a), conc(b)
     if ca is not None and cb is not None:
